@@ -310,7 +310,7 @@ type expect struct {
 	styleFree bool              // declarations not asserted (display rule still is)
 	style     map[string]string // property -> value
 	propFree  map[string]bool   // properties not asserted
-	display   string            // "none" | "shown" | "" (no v-show / unspecified)
+	display   string            // "none" | "shown" | "free" (truthiness unspecified) | "" (no v-show)
 
 	order []string // untouched static attribute names in source order
 }
@@ -485,7 +485,7 @@ func (c Case) model(k int) *expect {
 			}
 			switch {
 			case !spec:
-				e.propFree["display"] = true
+				e.display = "free"
 			case truthy:
 				e.display = "shown"
 			default:
@@ -512,9 +512,12 @@ func (c Case) model(k int) *expect {
 			e.must[a.Name] = acc
 		}
 	}
-	if e.display == "none" {
+	switch e.display {
+	case "none": // whatever else declares display, a falsy v-show wins
 		e.style["display"] = "none"
 		delete(e.propFree, "display")
+	case "free":
+		e.propFree["display"] = true
 	}
 	return e
 }
@@ -671,7 +674,7 @@ func compare(e *expect, got map[string]string, order []string) string {
 			return fmt.Sprintf("attribute %s=%q, want %q", n, g, e.must[n])
 		}
 	}
-	for n := range e.present {
+	for _, n := range keys(e.present) {
 		if _, ok := got[n]; !ok {
 			return fmt.Sprintf("attribute %q is missing (bound to a truthy value)", n)
 		}
@@ -687,12 +690,13 @@ func compare(e *expect, got map[string]string, order []string) string {
 		for _, t := range e.classReq {
 			req[t]++
 		}
-		for t, n := range req {
-			if count[t] != n {
+		for _, t := range sortedKeys(req) {
+			if n := req[t]; count[t] != n {
 				return fmt.Sprintf("class=%q: token %q appears %d time(s), want %d (expected tokens %v, optional %v)", got["class"], t, count[t], n, e.classReq, keys(e.classOpt))
 			}
 		}
-		for t, n := range count {
+		for _, t := range sortedKeys(count) {
+			n := count[t]
 			if req[t] > 0 {
 				continue
 			}
@@ -764,6 +768,15 @@ func compare(e *expect, got map[string]string, order []string) string {
 		last, lastName = p, n
 	}
 	return ""
+}
+
+func sortedKeys(m map[string]int) []string {
+	out := make([]string, 0, len(m))
+	for k := range m {
+		out = append(out, k)
+	}
+	sort.Strings(out)
+	return out
 }
 
 func keys(m map[string]bool) []string {
